@@ -9,7 +9,7 @@
 EXTENDS Naturals, TLC
 CONSTANT DevLenientInt       \* deviation (tree before its fix): the size is whatever int() can read; only the part before the
                              \* first ';' is looked at for user-info and fragment
-Sizes == {"3", "0", "plus", "underscore", "spaces", "arabic", "fullwidth", "negzero", "neg", "alpha", "empty", "float", "missing", "hex"}
+Sizes == {"3", "0", "plus", "underscore", "spaces", "arabic", "fullwidth", "negzero", "neg", "alpha", "empty", "float", "missing", "hex", "nbsp", "nbspKey"}     \* nbsp: a Unicode blank (U+00A0, U+2003, U+3000) beside the digits / beside the key
 Frags == {"none", "afterParams", "insideParams", "beforeParams"}
 Users == {"none", "plain", "semicolon"}
 Paths == {"plain", "empty", "pct"}
@@ -18,7 +18,7 @@ vars == <<size, frag, user, path, out>>
 Init == size \in Sizes /\ frag \in Frags /\ user \in Users /\ path \in Paths /\ out = "pending"
 SizeOk(s) == s \in {"3", "0"}
 \* what int() makes of the spellings (the deviation)
-IntReads(s) == s \in {"3", "0", "plus", "underscore", "spaces", "arabic", "fullwidth", "negzero"}
+IntReads(s) == s \in {"3", "0", "plus", "underscore", "spaces", "arabic", "fullwidth", "negzero", "nbsp", "nbspKey"}
 Valid == SizeOk(size) /\ frag = "none" /\ user = "none"
 Eval == /\ out = "pending"
         /\ out' = IF DevLenientInt
